@@ -1083,3 +1083,51 @@ package yqlib
 //@   ensures @int-mod-int-defined {C01} implies(old(lhs.Tag) == "!!int" && old(rhs.Tag) == "!!int", (result == nil) == (intOk(old(lhs.Value)) && intOk(old(rhs.Value)) && intOf(old(rhs.Value)) != 0))
 //@   ensures @int-mod-int-value {C01} implies(old(lhs.Tag) == "!!int" && old(rhs.Tag) == "!!int" && result == nil && intFormat(old(lhs.Value)) == "%v", target.Tag == "!!int" && target.Value == itoa(tmod(intOf(old(lhs.Value)), intOf(old(rhs.Value)))))
 //@   ensures @undefined-is-an-error {C01} implies(old(coreTagged(lhs)) && old(coreTagged(rhs)) && !((old(lhs.Tag) == "!!int" || old(lhs.Tag) == "!!float") && (old(rhs.Tag) == "!!int" || old(rhs.Tag) == "!!float")), result != nil)
+
+// ---------------------------------------------------------------------------------------------
+// operators.go: binary operators pair each left result with each right result, left-major (C01)
+
+//@ func resultsForRHS
+//@   props C01 C08 C11
+//@   private results
+//@   requires d != nil && validCtx(context) && rhsExp != nil && results != nil && prefs.Calculation != nil
+//@   readonly-if context.DontAutoCreate
+//@   modifies results.items, lastEvalOut, prevEvalOut
+//@   at GetMatchingNodes: assert @rhs-on-the-input {C01} arg1.MatchingNodes == context.MatchingNodes && arg1.DontAutoCreate == context.DontAutoCreate && arg2 == rhsExp
+//@   at Calculation#1: assert @empty-rhs {C01} arg2 == lhsCandidate && arg3 == nil
+//@   at Calculation#2: assert @each-right-result-in-order {C01} arg2 == lhsCandidate && arg3 == nodeAt(rhs.MatchingNodes, iter())
+//@   ensures @only-appends {C01} len(results) >= old(len(results)) && forall(k, 0, old(len(results)), listAt(results, k) == old(listAt(results, k)))
+//@   loop 1:
+//@     invariant @position (rightEl == nil && iter() == len(rhs.MatchingNodes)) || (rightEl != nil && elList(rightEl) == rhs.MatchingNodes && elIdx(rightEl) == iter())
+//@     invariant @only-appends len(results) >= old(len(results)) && len(results) <= old(len(results)) + iter() && forall(k, 0, old(len(results)), listAt(results, k) == old(listAt(results, k)))
+//@     invariant nodeList(rhs.MatchingNodes) && rhs.MatchingNodes != results
+
+//@ func doCrossFunc
+//@   props C01 C08 C11
+//@   requires d != nil && validCtx(context) && expressionNode != nil && expressionNode.LHS != nil && expressionNode.RHS != nil && prefs.Calculation != nil
+//@   readonly-if context.DontAutoCreate
+//@   modifies lastEvalOut, prevEvalOut
+//@   at GetMatchingNodes: assert @lhs-on-the-input {C01} arg1.MatchingNodes == context.MatchingNodes && arg1.DontAutoCreate == context.DontAutoCreate && arg2 == expressionNode.LHS
+//@   at resultsForRHS#1: assert @empty-lhs {C01} arg2 == nil && arg4 == expressionNode.RHS && arg5 == results && arg1.MatchingNodes == context.MatchingNodes
+//@   at resultsForRHS#2: assert @each-left-result-in-order {C01} arg2 == nodeAt(lhs.MatchingNodes, iter()) && arg4 == expressionNode.RHS && arg5 == results && arg1.MatchingNodes == context.MatchingNodes && arg1.DontAutoCreate == context.DontAutoCreate
+//@   ensures @results-in-a-child-context {C01} implies(result1 == nil, result0.MatchingNodes != nil && fresh(result0.MatchingNodes) && result0.DontAutoCreate == context.DontAutoCreate)
+//@   loop 1:
+//@     invariant @position (el == nil && iter() == len(lhs.MatchingNodes)) || (el != nil && elList(el) == lhs.MatchingNodes && elIdx(el) == iter())
+//@     invariant @a fresh(results) && lhs.MatchingNodes != results
+//@     invariant @b nodeList(lhs.MatchingNodes)
+//@     invariant @c validCtx(context)
+
+//@ func crossFunctionWithPrefs
+//@   props C01 C08 C11
+//@   requires d != nil && validCtx(context) && expressionNode != nil && expressionNode.LHS != nil && expressionNode.RHS != nil && prefs.Calculation != nil
+//@   readonly-if context.DontAutoCreate
+//@   modifies lastEvalOut, prevEvalOut
+//@   at doCrossFunc#1: assert @all-together-only-when-every-input-says-so {C01} arg1.MatchingNodes == context.MatchingNodes && arg2 == expressionNode && forall(k, 0, len(context.MatchingNodes), nodeAt(context.MatchingNodes, k).EvaluateTogether)
+//@   at doCrossFunc#2: assert @one-input-at-a-time-in-order {C01} len(arg1.MatchingNodes) == 1 && listAt(arg1.MatchingNodes, 0) == listAt(context.MatchingNodes, iter()) && arg1.DontAutoCreate == context.DontAutoCreate && arg2 == expressionNode
+//@   ensures @child-context {C01} implies(result1 == nil, result0.MatchingNodes != nil && result0.DontAutoCreate == context.DontAutoCreate)
+//@   loop 1:
+//@     invariant @position (matchEl == nil && iter() == len(context.MatchingNodes)) || (matchEl != nil && elList(matchEl) == context.MatchingNodes && elIdx(matchEl) == iter())
+//@     invariant @scan evaluateAllTogether && forall(k, 0, iter(), nodeAt(context.MatchingNodes, k).EvaluateTogether)
+//@   loop 2:
+//@     invariant @position (matchEl == nil && iter() == len(context.MatchingNodes)) || (matchEl != nil && elList(matchEl) == context.MatchingNodes && elIdx(matchEl) == iter())
+//@     invariant fresh(results) && validCtx(context)
